@@ -48,7 +48,7 @@ RULE = (
 ASSUMPTIONS = [
     "the caller (the simulator) passes fresh lists and never mutates a list it passed to or received from a scale",
     "floating-point tolerance for I5: 64*eps*(|r0|+|r1|)(1+|t|) forward, conditioned by |d1-d0|/|r1-r0| for invert; end points (I1) and isolation (I2) are exact comparisons",
-    "a rejected call (outside C12's quantifier) exempts only its own target from I1/I5, and only until both its domain and range have been set again; isolation of all other scales stays on",
+    "a rejected call (nice(0), domain(['x',1]), domain([None,1])) may raise or be accepted; either way every scale, the target included, must still map the end points of the domain it reports (shape-invalid arguments such as domain([1]) are not generated)",
     "magnitudes and histories are sampled; a clean batch is evidence, not proof",
 ]
 
@@ -88,7 +88,10 @@ def _pair(rng, mag_lo, mag_hi, style, allow_zero=True):
         if rng.random() < 0.3:
             # nearby end points: same sign and magnitude
             b = a + abs(a if a else b) * rng.choice([0.03, 0.5, 1.7, -0.4])
-        if a != b and math.isfinite(a) and math.isfinite(b) and abs(a - b) > 1e-9 * max(abs(a), abs(b)):
+        elif rng.random() < 0.1:
+            # narrow but non-degenerate: span far below the magnitude
+            b = a + abs(a if a else b) * rng.choice([1e-6, 3e-9, 1e-10, -2e-12, 5e-14])
+        if a != b and math.isfinite(a) and math.isfinite(b):
             if rng.random() < 0.5:
                 a, b = b, a
             return [a, b]
@@ -134,7 +137,7 @@ def gen_plan(rng, tier):
         elif r < copy_p + nice_p + 0.40 + clamp_p:
             ops.append(["clamp", i, rng.random() < 0.7])
         elif r < copy_p + nice_p + 0.40 + clamp_p + fault_p:
-            ops.append(rng.choice([["bad_nice", i], ["bad_domain", i]]))
+            ops.append(rng.choice([["bad_nice", i], ["bad_domain", i], ["bad_domain", i, "none"]]))
         elif r < copy_p + nice_p + 0.40 + clamp_p + fault_p + 0.05 and pool > 1:
             ops.append(["drop", i])
             pool -= 1
@@ -413,6 +416,8 @@ def _run(plan):
                 try:
                     if kind == "bad_nice":
                         target.nice(0)
+                    elif len(op) > 2 and op[2] == "none":
+                        target.domain([None, 1])
                     else:
                         target.domain(["x", 1])
                     outcome = "accepted"
@@ -420,7 +425,6 @@ def _run(plan):
                     outcome = "raise:" + type(e).__name__
                     bump("fault:rejected_call:fired")
                     bump("probe:rejected_call_raised")
-                exempt[id(target)] = {"domain", "range"}
             elif kind == "ticks":
                 bump("probe:readonly_op")
                 list(target.ticks(op[2]))
@@ -497,6 +501,9 @@ def _run(plan):
                         bad = check_scale(sc, fr, stats)
                     except ZeroDivisionError:
                         bad = ("division_by_zero_on_nondegenerate", {"scale": k})
+                    except (TypeError, ValueError, IndexError) as e:
+                        bad = ("reported_state_not_mapped", {"scale": k, "exception": type(e).__name__,
+                                                             "reported": repr(_reported(sc))[:200]})
                     checked += 1
                     if bad is not None:
                         bad[1]["scale"] = k
